@@ -19,6 +19,17 @@ func checkC08(e *core.Env) {
 	e.SetRule("client-streaming handlers emitting n in {0,1,2,3,5} raw responses with nil or non-nil final status, with/without headers and trailers, client asking for headers first or not; unary handlers returning a nil response (in-process); over HTTP, clients sending 0..3 request messages to a single-request method; oracle: success => exactly one response, handler nil, message equal; n=1 and nil => success; extra requests => handler's first receive fails and the client sees non-OK; distinct = (carrier, n, final status, header/trailer use, client order)")
 	cs := stdCarriers()
 	defer cs.Close()
+	// the same service registered through an intercepting registry (pass-through interceptors)
+	decServer := NewHTTPServer(&Service{}, carrierOpt{decorate: true})
+	decServer.Name = "http-server-decorated"
+	decMux := NewHTTPMux(&Service{}, carrierOpt{decorate: true, basePath: "/d/"})
+	decMux.Name = "http-mux-decorated"
+	decInproc := NewInproc(&Service{}, carrierOpt{decorate: true})
+	decInproc.Name = "inproc-decorated"
+	defer decServer.Close()
+	defer decMux.Close()
+	defer decInproc.Close()
+	cs.list = append(cs.list, decInproc, decServer, decMux)
 	n := e.N(800, 12000)
 	e.Cases("responses", n, func(i int, r *rand.Rand) {
 		for ci, c := range cs.list {
@@ -89,7 +100,7 @@ func checkC08(e *core.Env) {
 
 	// HTTP: extra request messages on single-request methods
 	e.Cases("requests", e.N(300, 4000), func(i int, r *rand.Rand) {
-		c := cs.list[1+i%2]
+		c := []*Carrier{cs.list[1], cs.list[2], decServer, decMux}[i%4]
 		k := pick(r, 1, 2, 2, 3)
 		tag := fmt.Sprintf("%016x", r.Uint64())
 		sc := &Script{Kind: ServerStream}
